@@ -164,7 +164,10 @@ def judge(plan, tr_ref: P.Trace, tr_lib: P.Trace):
             for tr, ot in ((tr_ref, ot_r), (tr_lib, ot_l)):
                 if ot.outcome.kind != "ok":
                     return V("getkey-reply", "protect-failed", f"{ot.outcome.exc!r}"), probes
-                p = cms.parse_blob(ot.outcome.value)
+                try:
+                    p = cms.parse_blob(ot.outcome.value)
+                except cms.CmsError as e:
+                    return V("key-identifier", "independent-decode", f"the emitted blob / key identifier is rejected by the independent strict decoder: {e}; domain={tr.dc.domain!r} forest={tr.dc.forest!r}"), probes
                 kid, raw = p["key_identifier"], p["key_identifier_raw"]
                 env = ot.getkeys[0]["envelope_fields"]
                 got = (kid["version"], kid["l0"], kid["l1"], kid["l2"], kid["root_key_id"], kid["domain"], kid["forest"], kid["flags"] & 1)
